@@ -56,6 +56,14 @@ CHECKS = {
             "Exploration with exhaustive parts: every integer percent -10..200, every Hz up to 2 MHz (20 MHz thorough), the 100 Hz raster of the LoRa bands (up to 2^32 thorough) and the 2^32 boundary must survive json.Marshal/Unmarshal; generated values of the 20 payload structs and their building blocks must round-trip field by field (nil == empty, RawMessage JSON-semantic, instants to one second); NewKeyEnvelope must equal the reference wrap and Unwrap must succeed exactly when the reference integrity check does (all 192 bit flips, other KEKs).",
             "Trusted: ref.KeyWrap/KeyUnwrap (RFC 3394 vectors self-checked), own civil-date arithmetic for timestamps.",
             "DESIGN.md §4 C17"),
+    "C14": ("rapid-generated channel histories and device channel sets, the full 2^16 device-subset sweep on <= 16-channel plans (thorough) and a complete sub-band grid for the 72/96-channel plans, judged by an independent executable model of how a device applies LinkADRReq channel masks",
+            "Exploration, complete for the 2^16 device subsets of three fixed histories per dynamic band (thorough tier) and for a structured sub-band grid on US915/AU915/CN470 (both tiers); histories and the device sets of the large plans are sampled. Applying the generated payloads with the harness's own apply model must give exactly network-enabled intersected with (standard or device-active custom); the library's apply function must agree; every payload must encode; the count bound and the nothing-when-equal rule must hold.",
+            "Trusted: the ChMaskCntl semantics transcribed in harness/c14 (0-5 blocks, 6/7 for the 72-channel plans); device indices are kept inside the plan (DESIGN.md §6).",
+            "DESIGN.md §4 C14"),
+    "C15": ("model-based state-machine testing with rapid (generated AddChannel/Disable/Enable op lists with arbitrary and with valid-only arguments replayed against a channel-record model), complete enumeration of invalid indices, CFList rules for all protocol versions, cross-layer round trip of every band output through the MAC encoders",
+            "Exploration, complete for the invalid-index grid (14 bands x 6 accessors x 10 indices); histories of up to 30 operations are sampled. After every step the index sets, lookups and the snapshot must agree with the model; CFList content follows the custom-channel / enabled-mask rule; every frequency, data-rate, CFList and LinkADRReq the band hands out must encode and decode through RXParamSetupReq, NewChannelReq, DLChannelReq, PingSlotChannelReq, BeaconFreqReq, CFList and JoinAcceptPayload. Known finding K3 (ISM2400 frequencies vs. the five 100-Hz encoders) is excluded by class while its witness fails.",
+            "Trusted: the transition model and valid-frequency definition in harness/c15; standard channels are read from the fresh band (their regional values are C13's subject).",
+            "DESIGN.md §4 C15"),
     "C16": ("rapid-generated worlds and requests through http.Handler.ServeHTTP judged by an independent end-device + network-server model; generated concurrent batches under the race detector compared with sequential answers",
             "Exploration: generated devices, KEK tables and join / rejoin 0-1-2 / HomeNS requests (plus bit-flip, wrong-key, unknown-device and 16 kinds of malformed requests) are served by the handler; the device model decrypts the join-accept, verifies the MIC, checks the echoed fields, unwraps the envelopes (RFC 3394 model) and compares the session keys with its own 1.0 / 1.1 derivation. The -race binary serves batches of 2..16 requests concurrently and requires answers byte-identical to sequential service. Known finding K4 (rejoin keys derived 1.0-style) is accepted as exactly one alternative key set and reported.",
             "Trusted: ref crypto models (CMAC, key wrap, join blocks), wire model; observed handler conventions listed in the package comment (NS KEK label = SenderID, JoinEUI = ReceiverID).",
